@@ -286,6 +286,39 @@ def main(tier):
                 execs.append(ex)
             else:
                 rep.disagree("tzm_open fails on a compiled map", {"keys": "lengths %s" % lens, "answer": r_})
+        # a large source: thousands of keys over few zones.  The compiled map stores a zone name once and addresses it with a 16-bit offset
+        # into the name pool, so the answer for a late key depends on every earlier line having shared its name (pool well below 64 KiB)
+        nbig = 8000 if quick else 40000
+        bkeys = ["K%06d" % i for i in range(nbig)]
+        bz = [allz[(i * 7 + i // 97) % min(len(allz), 12)] for i in range(nbig)]
+        src = os.path.join(sdir, "big.tzmap")
+        out = os.path.join(sdir, "big.tzmcc")
+        with open(src, "w") as f:
+            for k, zn in zip(bkeys, bz):
+                f.write("%s\t%s\n" % (k, zn))
+        p = core.run([tzmap, "cc", "-o", out, src], timeout=120)
+        if p.returncode != 0 or not os.path.exists(out):
+            rep.disagree("tzmap cc refuses a large sorted source", {"keys": nbig, "rc": p.returncode, "stderr": p.stderr[:300]})
+        else:
+            with open(fm.path, "wb") as f:
+                f.write(open(out, "rb").read())
+            fm.n += 1
+            r_ = fm.drv.cmd("O " + fm.path)
+            sel = sorted(set(list(range(40)) + list(range(nbig - 160, nbig)) + [rng.randrange(nbig) for _ in range(200)] + list(range(0, nbig, max(1, nbig // 100)))))
+            ex = [{"e": "Reset", "keys": [bkeys[i] for i in sel], "zones": [bz[i] for i in sel]}]
+            if isinstance(r_, dict) and r_.get("ok"):
+                for i in sel:
+                    a = fm.drv.cmd("F " + bkeys[i])
+                    nfind += 1
+                    if a in ("hang", "crash"):
+                        fm.report(a, "find", "large map, key %d of %d" % (i, nbig))
+                        fm.drv.cmd("O " + fm.path)
+                        continue
+                    ex.append({"e": "Find", "key": bkeys[i], "r": a.get("r") or ""})
+                execs.append(ex)
+            else:
+                rep.disagree("tzm_open fails on a compiled map", {"keys": "large map of %d keys" % nbig, "answer": r_})
+            rep.notes["large_map"] = {"keys": nbig, "zones": len(set(bz)), "compiled_bytes": os.path.getsize(out), "looked_up": len(sel)}
         fm.drv.close()
         rep.count(evaluations=fm.n + nfind, distinct=fm.n + nfind)
         rep.notes["map_cases"] = fm.n
